@@ -84,6 +84,16 @@ func typeForArg(p *packages.Package, e ast.Expr) types.Type {
 	if !ok {
 		return nil
 	}
+	if sel, ok := call.Fun.(*ast.SelectorExpr); ok && sel.Sel.Name == "TypeOf" && len(call.Args) == 1 {
+		// reflect.TypeOf(x): the dynamic type of x is its static type when that is not an interface
+		if obj, _ := p.TypesInfo.Uses[sel.Sel].(*types.Func); obj != nil && obj.Pkg() != nil && obj.Pkg().Path() == "reflect" {
+			t := p.TypesInfo.TypeOf(call.Args[0])
+			if t != nil && !types.IsInterface(t) {
+				return t
+			}
+		}
+		return nil
+	}
 	ix, ok := call.Fun.(*ast.IndexExpr)
 	if !ok {
 		return nil
@@ -204,7 +214,7 @@ func runC08(c *Ctx) {
 			}
 			kt := typeForArg(pp, kv.Key)
 			if kt == nil {
-				c.Undecided("a key of nodeToASTTypes is not reflect.TypeFor[T]()")
+				c.Undecided("a key of nodeToASTTypes is neither reflect.TypeFor[T]() nor reflect.TypeOf of a concretely typed value")
 			}
 			name := kt.(*types.Named).Obj().Name()
 			set := map[string]bool{}
@@ -221,6 +231,8 @@ func runC08(c *Ctx) {
 				for _, x := range v.Elts {
 					if t := typeForArg(pp, x); t != nil {
 						set[TypeString(t)] = true
+					} else {
+						c.Undecided("an element of nodeToASTTypes[%s] is neither reflect.TypeFor[T]() nor reflect.TypeOf of a concretely typed value", name)
 					}
 				}
 			default:
@@ -257,9 +269,22 @@ func runC08(c *Ctx) {
 		// explicit cases of collectEntryNodes: Not / Nil / nil yield all kinds; Or and Binding recurse
 		cen := c.Func("pattern", "collectEntryNodes")
 		recArgs := map[string]bool{}
-		for _, ci := range Calls(cen, false) {
-			if ci.Common().StaticCallee() == cen {
-				for x := range BackSlice(ci.Common().Args[0], SliceOpts{}) {
+		// calls that recurse: to collectEntryNodes itself, or to a helper of the package that calls it
+		var cenCalls []ssa.CallInstruction
+		for _, f := range DeepFuncs(cen, 2) {
+			for _, ci := range Calls(f, false) {
+				callee := ci.Common().StaticCallee()
+				if callee == nil || FuncPkgPath(callee) != patternPkg {
+					continue
+				}
+				if callee == cen || (callee != f && len(CallsTo(callee, false, patternPkg+".collectEntryNodes")) > 0) {
+					cenCalls = append(cenCalls, ci)
+				}
+			}
+		}
+		for _, ci := range cenCalls {
+			for _, arg := range ci.Common().Args {
+				for x := range BackSlice(arg, SliceOpts{}) {
 					if fa, ok := x.(*ssa.FieldAddr); ok {
 						if owner, f := FieldOf(fa.X.Type(), fa.Field); f != nil {
 							recArgs[shortOwner(owner)+"."+f.Name()] = true
@@ -396,20 +421,42 @@ func runC08(c *Ctx) {
 		vfd, vp := c.Decl("analysis/code", "CouldMatchAny")
 		// the 'do' closure: the function literal with a type switch over its parameter
 		handled := map[string]bool{}
-		ast.Inspect(vfd.Body, func(n ast.Node) bool {
-			sw, ok := n.(*ast.TypeSwitchStmt)
-			if !ok {
-				return true
+		var bodies []ast.Node
+		for _, f := range DeepFuncs(c.Func("analysis/code", "CouldMatchAny"), 2) {
+			if syn := f.Syntax(); syn != nil && f.Parent() == nil {
+				bodies = append(bodies, syn) // closures are inside their parent's syntax
 			}
-			for _, cl := range sw.Body.List {
-				for _, e := range cl.(*ast.CaseClause).List {
-					if n, ok := types.Unalias(vp.TypesInfo.TypeOf(e)).(*types.Named); ok {
-						handled[n.Obj().Name()] = true
+		}
+		if len(bodies) == 0 {
+			bodies = append(bodies, vfd.Body)
+		}
+		for _, body := range bodies {
+			ast.Inspect(body, func(n ast.Node) bool {
+				sw, ok := n.(*ast.TypeSwitchStmt)
+				if !ok {
+					return true
+				}
+				// only switches over a pattern.Node
+				var x ast.Expr
+				switch a := sw.Assign.(type) {
+				case *ast.AssignStmt:
+					x = a.Rhs[0].(*ast.TypeAssertExpr).X
+				case *ast.ExprStmt:
+					x = a.X.(*ast.TypeAssertExpr).X
+				}
+				if t := vp.TypesInfo.TypeOf(x); t == nil || !strings.HasSuffix(t.String(), "pattern.Node") {
+					return true
+				}
+				for _, cl := range sw.Body.List {
+					for _, e := range cl.(*ast.CaseClause).List {
+						if n, ok := types.Unalias(vp.TypesInfo.TypeOf(e)).(*types.Named); ok {
+							handled[n.Obj().Name()] = true
+						}
 					}
 				}
-			}
-			return true
-		})
+				return true
+			})
+		}
 		for _, k := range SortedKeys(ret) {
 			key := codePkg + ".CouldMatchAny::handles-pattern." + k
 			if k == "nil" {
@@ -429,15 +476,7 @@ func runC08(c *Ctx) {
 	c.Rule("R8.7", func() {
 		c.Floor("R8.7", 2)
 		cma := c.Func("analysis/code", "CouldMatchAny")
-		var all []*ssa.Function
-		var walk func(f *ssa.Function)
-		walk = func(f *ssa.Function) {
-			all = append(all, f)
-			for _, a := range f.AnonFuncs {
-				walk(a)
-			}
-		}
-		walk(cma)
+		all := DeepFuncs(cma, 2)
 		peels := false
 		for _, fn := range c.ModuleFuncs() {
 			if FuncPkgPath(fn) == patternPkg && strings.Contains(fn.String(), "Symbol).Match") {
@@ -474,15 +513,7 @@ func runC08(c *Ctx) {
 	c.Rule("R8.5", func() {
 		c.Floor("R8.5", 5)
 		m := c.Func("analysis/code", "Matches")
-		var all []*ssa.Function
-		var walk func(f *ssa.Function)
-		walk = func(f *ssa.Function) {
-			all = append(all, f)
-			for _, a := range f.AnonFuncs {
-				walk(a)
-			}
-		}
-		walk(m)
+		all := DeepFuncs(m, 2)
 		nMatch := 0
 		usesIndex, usesInspector := false, false
 		for _, f := range all {
@@ -494,11 +525,31 @@ func runC08(c *Ctx) {
 				if strings.HasSuffix(n, "typeindex.Index.Calls") {
 					usesIndex = true
 					// guarded by len(q.RootCallSymbols) != 0
-					nonEmpty := ComplementEdges(EqEdges(f, func(x, y ssa.Value) bool {
-						k, isK := ConstInt(y)
-						call, isCall := x.(*ssa.Call)
-						return isK && k == 0 && isCall && IsCallTo(call, "builtin.len") && Derives(call.Call.Args[0], IsFieldOf("pattern.Pattern", "RootCallSymbols"))
-					}))
+					isRoots := func(v ssa.Value) bool { return Derives(v, IsFieldOf("pattern.Pattern", "RootCallSymbols")) }
+					nonEmpty := LenNonZeroEdges(f, isRoots)
+					// when the index path lives in a helper, the guard is at the helper's call site
+					guardFn := f
+					var guarded ssa.Instruction = ci
+					for len(nonEmpty) == 0 && guardFn != m {
+						var site ssa.CallInstruction
+						for _, g := range all {
+							for _, cc := range Calls(g, false) {
+								root := guardFn
+								for root.Parent() != nil {
+									root = root.Parent()
+								}
+								if cc.Common().StaticCallee() == root {
+									site, guardFn = cc, g
+								}
+							}
+						}
+						if site == nil {
+							break
+						}
+						guarded = site
+						nonEmpty = LenNonZeroEdges(guardFn, isRoots)
+					}
+					f, ci := guardFn, guarded
 					ok, p := MustPassEdges(f, ci, nonEmpty)
 					c.Check(FuncKey(m)+"::call-index-only-with-root-symbols", ci.Pos(), ok && len(nonEmpty) > 0, "candidates are taken from the call index only if the pattern has root call symbols; path: %s", PathString(f, p))
 				}
@@ -512,6 +563,20 @@ func runC08(c *Ctx) {
 		// collectRootCallSymbols: a non-Symbol / non-String alternative makes the helpers return false
 		crs := c.Func("pattern", "collectRootCallSymbols")
 		for _, an := range crs.AnonFuncs {
+			looksAtOr := false
+			Instrs(an, false, func(in ssa.Instruction) {
+				if fa, ok := in.(*ssa.FieldAddr); ok && IsFieldOf("pattern.Or", "Nodes")(fa) {
+					looksAtOr = true
+				}
+				if fv, ok := in.(*ssa.Field); ok {
+					if o, f := FieldOf(fv.X.Type(), fv.Field); f != nil && shortOwner(o) == "pattern.Or" && f.Name() == "Nodes" {
+						looksAtOr = true
+					}
+				}
+			})
+			if !looksAtOr {
+				continue // not one of the helpers that walk the alternatives of an Or
+			}
 			// in each helper: from the failing edge of a type assertion in a loop over Or.Nodes no 'return true' is reachable
 			failing := CondEdges(an, func(cond ssa.Value) (bool, bool) {
 				e, ok := cond.(*ssa.Extract)
